@@ -95,7 +95,12 @@ partial def attribution (tb : Tables) : TRef → Data Nat → List String
   | .list t, .slice .reflect xs => xs.flatMap (fun x => attribution tb t (.leaf x))
   | .scalar s, .leaf v =>
     let a := (outTables tb s).armFor v.kind
-    if armSoundOutR tb.leafErrNulls s v.kind a then [] else [flagOfArm tb.leafErrNulls s v.kind a]
+    if armSoundOutR tb.leafErrNulls s v.kind a then [] else
+    -- Int / Int64 ← float: the range half of D16 is repaired (`convTrunc`), dropping the fraction is not
+    (match s, v, a with
+     | .int, .flt _ x, .conv _ => if (f64Trunc x).any inRange32 then ["D16"] else ["D16-range"]
+     | .int64, .flt _ x, .conv _ => if (f64Trunc x).any inRange64 then ["D16"] else ["D16-range"]
+     | _, _, _ => [flagOfArm tb.leafErrNulls s v.kind a])
   | .enum _, .leaf (.str _) => ["D17"]
   | .enum _, .leaf (.sym _) => ["D17"]
   | _, _ => []
@@ -142,6 +147,7 @@ def flags (tb : Tables) : List (String × Bool) :=
   let all : List Scalar := [.int, .int64, .float, .float64, .string, .id, .boolean, .time]
   let unsound := all.flatMap (fun s => (unsoundOutR tb.leafErrNulls s (outTables tb s)).map (fun p => flagOfArm tb.leafErrNulls s p.1 p.2))
   [("D15", unsound.contains "D15"), ("D16", unsound.contains "D16"), ("D16-int", unsound.contains "D16-int"), ("D16-float", unsound.contains "D16-float"), ("D48", unsound.contains "D48"),
+   ("D16-range", all.any (fun s => (s == .int || s == .int64) && (outTables tb s).arms.any (fun p => p.1.isFloat && (match p.2 with | .conv _ => true | _ => false)))),
    ("D17", true), ("D18", tb.fastSliceCopies)]
 
 end Ggql.Driver.C05
